@@ -76,6 +76,33 @@ async def cancelled_then(sname, direction, op1, op2, turns):
     return bad, listener.trace, r
 
 
+async def waiter_cancelled(sname, direction, op1, op2, op3):
+    """op1 holds the state lock (it is cancelling a slow task); op2 WAITS for the lock and its caller is cancelled (a timeout); then op3"""
+    t = Transfer('user', 'path', direction)
+    listener = L()
+    t.state_listeners.append(listener)
+    t.state = getattr(ST, sname)(t)
+    t._transfer_task = asyncio.create_task(slow())
+    await asyncio.sleep(0)
+    s = t.state
+    first = asyncio.ensure_future(getattr(s, op1)())
+    await asyncio.sleep(0)
+    await asyncio.sleep(0)
+    second = asyncio.ensure_future(getattr(s, op2)())
+    await asyncio.sleep(0)
+    second.cancel()
+    await asyncio.sleep(0)
+    third = asyncio.ensure_future(getattr(s, op3)())
+    res = await asyncio.gather(first, second, third, return_exceptions=True)
+    for _ in range(10):
+        await asyncio.sleep(0)
+    if t._transfer_task and not t._transfer_task.done():
+        t._transfer_task.cancel()
+    bad = [(a, b) for a, b in listener.trace if b not in EDGES.get(a, [])]
+    errors = [repr(r) for r in (res[0], res[2]) if isinstance(r, BaseException) and not isinstance(r, asyncio.CancelledError)]
+    return bad, listener.trace, errors
+
+
 async def single(sname, direction, op):
     t = Transfer('user', 'path', direction)
     listener = L()
@@ -128,6 +155,16 @@ def main():
                             verdict(True, f'{sname}: the caller of {op1}() is cancelled after {turns} loop turns (it holds the state lock), then {op2}(): '
                                           f'listeners saw {trace}; not edges: {bad}; result {r}',
                                     input={'state': sname, 'direction': direction.name, 'ops': [op1 + ' (caller cancelled)', op2]})
+    for sname in ['QueuedState', 'InitializingState', 'DownloadingState', 'UploadingState']:
+        for direction in (TransferDirection.DOWNLOAD, TransferDirection.UPLOAD):
+            for op1 in ('abort', 'pause'):
+                for op2 in ('queue', 'fail'):
+                    for op3 in ('fail', 'abort', 'queue'):
+                        bad, trace, errors = run(waiter_cancelled(sname, direction, op1, op2, op3))
+                        if bad or errors:
+                            verdict(True, f'{sname}: {op1}() holds the state lock, the caller of a waiting {op2}() is cancelled, then {op3}(): listeners saw {trace}; '
+                                          f'not edges: {bad}; errors {errors}',
+                                    input={'state': sname, 'direction': direction.name, 'ops': [op1, op2 + ' (waiter cancelled)', op3]})
     verdict(False)
 
 
